@@ -103,6 +103,31 @@ impl ZoneStore {
         Some(cache.cache.peek(pubkey).map(|z| z.timestamp.as_micros()))
     }
 
+    /// Entries of the update-time index below `cutoff_micros`, read like the eviction pass
+    /// does (verification hook).
+    #[cfg(iroh_verif)]
+    pub(crate) async fn verif_snapshot_below(
+        &self,
+        cutoff_micros: u64,
+    ) -> Result<Vec<(u64, [u8; 32])>> {
+        let entries = self
+            .store
+            .verif_snapshot_below(Timestamp::from_micros(cutoff_micros))
+            .await?;
+        Ok(entries
+            .into_iter()
+            .map(|(t, k)| (t.as_micros(), k))
+            .collect())
+    }
+
+    /// Sends one `CheckExpired` message to the packet store actor (verification hook).
+    #[cfg(iroh_verif)]
+    pub(crate) async fn verif_check_expired(&self, time_micros: u64, key: [u8; 32]) -> Result<()> {
+        self.store
+            .verif_check_expired(Timestamp::from_micros(time_micros), key)
+            .await
+    }
+
     /// Configure a mainline DHT client for resolution of packets as a fallback.
     ///
     /// This will be used only as a fallback if there is no local info available.
